@@ -119,7 +119,13 @@ def mems_msop(rng, l, seq, ts_us=None, temp=None, return_mode=None, noise=False,
 
 def malformed(rng, l, good_msop, good_difop):
     """a packet the driver must reject (or ignore), with its kind"""
-    k = rng.choice(['msop_short', 'msop_long', 'msop_badid', 'difop_short', 'difop_long', 'difop_badid', 'foreign', 'empty', 'one', 'two_msop', 'two_difop', 'rand'])
+    k = rng.choice(['msop_short', 'msop_long', 'msop_badid', 'difop_short', 'difop_long', 'difop_badid', 'foreign', 'empty', 'one', 'two_msop', 'two_difop', 'rand',
+                    'msop_badid_badlen', 'difop_badid_badlen', 'msop_badid_badlen'])
+    if k in ('msop_badid_badlen', 'difop_badid_badlen'):
+        # BOTH a wrong identifier (beyond the two dispatch bytes) and a wrong length
+        src, idl = (good_msop, len(l.msop_id)) if k.startswith('msop') else (good_difop, len(l.difop_id))
+        b = bytearray(src); i = rng.randrange(2, idl); b[i] ^= 1 << rng.randrange(8)
+        return k, bytes(b[:-rng.choice([1, 6, 100])]) if rng.random() < 0.6 else bytes(b) + bytes(rng.choice([1, 2, 6]))
     if k == 'msop_short':
         return k, good_msop[:-rng.choice([1, 2, 6, 100])]
     if k == 'msop_long':
@@ -211,7 +217,7 @@ class Scn:
 
 def mixed_scenario(rng, L, tname, sname, cfg, answers=None, npk=None, malformed_p=0.25, badblk_p=0.12, difop_at=None, dual=None,
                    host=False, residual=True, temp_query=False, dev_query=False, big_steps=False, gap_p=0.05, start_az=None, step=None, seq0=None,
-                   dist=None, fov=None, rpm=None, zero_gap=False, tail_invalid_p=0.25):
+                   dist=None, fov=None, rpm=None, zero_gap=False, tail_invalid_p=0.25, bpv4=None, reversal=None):
     """one scenario: a DIFOP/MSOP stream for lidar `tname` with malformed packets interleaved"""
     l = L[tname]
     s = Scn(sname)
@@ -228,8 +234,10 @@ def mixed_scenario(rng, L, tname, sname, cfg, answers=None, npk=None, malformed_
         if fov is None:
             fov = rng.choice([(0, 36000), (0, 36000), (4500, 31500), (31500, 4500), (0, 0)])
         kd, vert, horiz, raw = cali_table(rng, l, 'valid' if rng.random() < 0.7 else None)
-        good_d = l.difop(dual=dual, rpm=rpm, fov=fov, vert=vert, horiz=horiz, raw_cali=raw)
-        bp = tname == 'RSBP' and rng.random() < 0.4
+        if reversal is None:
+            reversal = rng.choice([0, 0, 1, 0x80]) if tname == 'RSBP' else 0
+        good_d = l.difop(dual=dual, rpm=rpm, fov=fov, vert=vert, horiz=horiz, raw_cali=raw, reversal=reversal)
+        bp = (tname == 'RSBP' and rng.random() < 0.4) if bpv4 is None else bpv4
         n = npk if npk is not None else rng.choice([2, 3, 4, 6])
         if difop_at is None:
             difop_at = rng.choice([0, 0, 0, 1, 2])
